@@ -541,7 +541,7 @@ class MHRun:
                 # the sampler is pointed at ANOTHER target of the same kind and re-initialised
                 if FAMILY[self.kind] in ("rw", "cwmh", "mala", "ula"):
                     sc2 = dict(cur_sc, target=dict(cur_sc["target"], zseed=cur_sc["target"]["zseed"] + 101,
-                                                    kind=cur_sc["target"]["kind"] if cur_sc["target"]["kind"] != "post" else "quartic"))
+                                                    kind=cur_sc["target"]["kind"] if not cur_sc["target"]["kind"].startswith("post") else "quartic"))
                     k2 = dict(sc2["knobs"])
                     if sc2["target"]["kind"] == "boxed":
                         k2.pop("initial_point", None)
